@@ -10,7 +10,8 @@ VARIABLES phase, goods, bad, badpos, ending
 vars == <<phase, goods, bad, badpos, ending>>
 
 Good == << "addi a0, a0, 1", "L1:", ".word 7", "# only a comment", "", "beq a0, t1, L1",
-           "sw a0, 4(sp) # tail comment", "ecall", "mv t1, a0" >>
+           "sw a0, 4(sp) # tail comment", "ecall", "mv t1, a0", "lw a0, 4", "sw a0, 8", "jalr a0, 0", "jalr a0",
+           ".word 1 2", "la t0, L1" >>
 \* name, text
 Bad == <<
   [n |-> "missing-last-operand",  t |-> "addi a0, a0"],
@@ -19,6 +20,9 @@ Bad == <<
   [n |-> "unknown-mnemonic",      t |-> "frobnicate a0, a1"],
   [n |-> "stray-semicolon-after", t |-> "addi a0, a0, 1 ; x"],
   [n |-> "stray-at-sign",         t |-> "@ nonsense"],
+  [n |-> "stray-char-at-end-of-line", t |-> "addi a0, a0, 1 ;"],
+  [n |-> "stray-char-alone",      t |-> "@"],
+  [n |-> "plus-at-end-of-line",   t |-> "li a0, 5 +"],
   [n |-> "plus-sign",             t |-> "li a0, 5 + 3"],
   [n |-> "unterminated-char",     t |-> "li a0, 'ab"],
   [n |-> "unterminated-string",   t |-> ".ascii \"abc"],
